@@ -113,7 +113,9 @@ ht2mjd(const unsigned int *cal, size_t nm, struct ymd_s h)
 {
 	const unsigned int i = (h.y - 1U) * 12U + (h.m - 1U) - SM(cal);
 
-	if (UNLIKELY(i >= nm)) {
+	if (UNLIKELY(i >= nm - 1U)) {
+		/* the last entry only closes the month before it,
+		 * the way back wouldn't know the month it begins either */
 		return 0U;
 	}
 	return MT(cal)[i] + (h.d - 1U);
